@@ -70,30 +70,47 @@ def isSpace3 (a b c : UInt8) : Bool :=
 
 def isSpace2 (a b : UInt8) : Bool := a == 0xC2 && (b == 0x85 || b == 0xA0)
 
-def trimLeft : Str → Str
-  | [] => []
-  | a :: s =>
-    if isSpace a then trimLeft s else
-    match s with
-    | b :: s' =>
-      if isSpace2 a b then trimLeft s' else
-      match s' with
-      | c :: s'' => if isSpace3 a b c then trimLeft s'' else a :: s
-      | [] => a :: s
-    | [] => a :: s
+/-- number of bytes of the white-space rune the string starts with (0: it does not start with white space) -/
+def spaceRuneLen : Str → Nat
+  | [] => 0
+  | a :: rest =>
+    if isSpace a then 1 else
+    match rest with
+    | [] => 0
+    | b :: rest2 =>
+      if isSpace2 a b then 2 else
+      match rest2 with
+      | [] => 0
+      | c :: _ => if isSpace3 a b c then 3 else 0
 
-/-- trimming at the end, on the reversed string (so the byte patterns are reversed) -/
-def trimLeftRev : Str → Str
-  | [] => []
-  | a :: s =>
-    if isSpace a then trimLeftRev s else
-    match s with
-    | b :: s' =>
-      if isSpace2 b a then trimLeftRev s' else
-      match s' with
-      | c :: s'' => if isSpace3 c b a then trimLeftRev s'' else a :: s
-      | [] => a :: s
-    | [] => a :: s
+def trimLeftFuel : Nat → Str → Str
+  | 0, s => s
+  | n + 1, s => match spaceRuneLen s with
+    | 0 => s
+    | k => trimLeftFuel n (s.drop k)
+
+def trimLeft (s : Str) : Str := trimLeftFuel s.length s
+
+/-- the same on the reversed string (byte patterns reversed) -/
+def spaceRuneLenRev : Str → Nat
+  | [] => 0
+  | a :: rest =>
+    if isSpace a then 1 else
+    match rest with
+    | [] => 0
+    | b :: rest2 =>
+      if isSpace2 b a then 2 else
+      match rest2 with
+      | [] => 0
+      | c :: _ => if isSpace3 c b a then 3 else 0
+
+def trimLeftRevFuel : Nat → Str → Str
+  | 0, s => s
+  | n + 1, s => match spaceRuneLenRev s with
+    | 0 => s
+    | k => trimLeftRevFuel n (s.drop k)
+
+def trimLeftRev (s : Str) : Str := trimLeftRevFuel s.length s
 
 def trimSpace (s : Str) : Str := (trimLeftRev (trimLeft s).reverse).reverse
 
